@@ -361,16 +361,16 @@ Proof.
   { subst self'. destruct self; auto. destruct o as [[]| |]; auto; apply wf_cells_of_bits. }
   destruct p; cbn in H.
   1,2,5,6: destruct (vec_bin false o self' _) eqn:E; cbn in H; inversion H; subst;
-           apply obj_of_vec_wf; eapply vec_bin_wf; eauto.
+           apply obj_of_vec_wf; eapply vec_bin_wf; [exact Hs'|exact Hp|exact E].
   - destruct (mapM _ rows) eqn:E; cbn in H; try discriminate.
-    eapply obj_of_rows_wf; eauto. eapply mapM_Forall; [|exact Hp|exact E].
-    intros x y Hx Hy. cbn in Hy. eapply vec_bin_wf; eauto.
+    eapply obj_of_rows_wf; [|eassumption]. eapply mapM_Forall; [|exact Hp|exact E].
+    intros x y Hx Hy. cbn in Hy. eapply vec_bin_wf; [exact Hs'| |exact Hy]. exact Hx.
   - destruct (mapM _ rows) eqn:E; cbn in H; try discriminate.
-    eapply obj_of_rows_wf; eauto. eapply mapM_Forall; [|apply Forall_True|exact E].
-    intros x y _ Hy. cbn in Hy. eapply vec_bin_wf; eauto. exact I.
+    eapply obj_of_rows_wf; [|eassumption]. eapply mapM_Forall; [|apply Forall_True|exact E].
+    intros x y _ Hy. cbn in Hy. eapply vec_bin_wf; [exact Hs'| |exact Hy]. exact I.
   - destruct (mapM _ m) eqn:E; cbn in H; try discriminate.
-    eapply obj_of_rows_wf; eauto. eapply mapM_Forall; [|apply Forall_True|exact E].
-    intros x y _ Hy. cbn in Hy. eapply vec_bin_wf; eauto. exact I.
+    eapply obj_of_rows_wf; [|eassumption]. eapply mapM_Forall; [|apply Forall_True|exact E].
+    intros x y _ Hy. cbn in Hy. eapply vec_bin_wf; [exact Hs'| |exact Hy]. exact I.
 Qed.
 
 Lemma array_bin_go_wf o rows others r :
@@ -388,45 +388,242 @@ Proof.
   { intros x l Hx. eapply mapM_Forall; [|exact Hr]. intros r0 y Hr0 Hy. eapply vec_bin_wf; eauto. }
   assert (G3 : forall l, map2M (fun r x => vec_bin false o r x) rows others = Ok l -> Forall vwf l).
   { intros l. eapply map2M_Forall; [|exact Hr|exact Ho]. intros x y z Hx Hy Hz. eapply vec_bin_wf; eauto. }
-  destruct rows as [|row [|row2 rows]].
-  - destruct others as [|x [|x2 others]];
-      match type of H with (do l <- ?m; _) = _ => destruct m eqn:E; cbn in H; try discriminate end;
-      eapply obj_of_rows_wf; eauto. inversion Ho; subst. eapply G2; eauto.
-  - match type of H with (do l <- ?m; _) = _ => destruct m eqn:E; cbn in H; try discriminate end.
-    eapply obj_of_rows_wf; eauto. inversion Hr; subst. eapply G1; eauto.
-  - destruct others as [|x [|x2 others]];
-      match type of H with (do l <- ?m; _) = _ => destruct m eqn:E; cbn in H; try discriminate end;
-      eapply obj_of_rows_wf; eauto. inversion Ho; subst. eapply G2; eauto.
+  destruct rows as [|row [|row2 rows]]; destruct others as [|x [|x2 others]]; cbn [bind] in H.
+  all: match type of H with (do l <- ?m; _) = _ => destruct m eqn:E; cbn in H; try discriminate end;
+       (eapply obj_of_rows_wf; [|exact H]);
+       first [ eapply G3; first [exact E | reflexivity]
+             | inversion Ho; subst; eapply G2; [|first [exact E | reflexivity]]; assumption
+             | inversion Hr; subst; eapply G1; [|first [exact E | reflexivity]]; assumption ].
 Qed.
 Lemma array_bin_wf o rows p r : Forall vwf rows -> pwf p -> array_bin false o rows p = Ok r -> owf r.
 Proof.
-  intros Hr Hp H. unfold array_bin in H. destruct p.
+  intros Hr Hp H. unfold array_bin in H.
+  assert (G : forall x l, pwf x -> mapM (fun r => vec_bin false o r x) rows = Ok l -> Forall vwf l).
+  { intros x l Hx. eapply mapM_Forall; [|exact Hr]. intros r0 y Hr0 Hy. eapply vec_bin_wf; [exact Hr0|exact Hx|exact Hy]. }
+  destruct p.
   1,2,5,6: match type of H with (do l <- ?m; _) = _ => destruct m eqn:E; cbn in H; try discriminate end;
-           eapply obj_of_rows_wf; eauto; (eapply mapM_Forall; [|exact Hr|exact E]);
-           intros x y Hx Hy; eapply vec_bin_wf; eauto.
-  - eapply array_bin_go_wf; eauto. now apply map_PV_pwf.
-  - eapply array_bin_go_wf; eauto. apply map_PL_pwf.
+           (eapply obj_of_rows_wf; [|exact H]); eapply G; [exact Hp|exact E].
+  - eapply array_bin_go_wf; [exact Hr| |exact H]. now apply map_PV_pwf.
+  - eapply array_bin_go_wf; [exact Hr| |exact H]. apply map_PL_pwf.
   - match type of H with (do l <- ?m; _) = _ => destruct m eqn:E; cbn in H; try discriminate end.
-    eapply obj_of_rows_wf; eauto. eapply map2M_Forall; [|exact Hr|apply (Forall_True m)|exact E].
-    intros x y z Hx _ Hz. cbn in Hz. eapply vec_bin_wf; eauto. exact I.
+    eapply obj_of_rows_wf; [|exact H]. eapply map2M_Forall; [|exact Hr|apply (Forall_True m)|exact E].
+    intros x y z Hx _ Hz. cbn in Hz. eapply vec_bin_wf; [exact Hx| |exact Hz]. exact I.
 Qed.
 Lemma array_ibin_wf o al rows p l : Forall vwf rows -> pwf p -> array_ibin false o al rows p = Ok l -> Forall vwf l.
 Proof.
   intros Hr Hp H. unfold array_ibin in H.
   assert (G : forall al x l, pwf x -> mapM (fun row => vec_ibin false o al row x) rows = Ok l -> Forall vwf l).
-  { intros al0 x l0 Hx. eapply mapM_Forall; [|exact Hr]. intros r0 y Hr0 Hy. eapply vec_ibin_wf; eauto. }
-  destruct p; try (eapply G; eauto; fail).
-  - destruct (negb (is_float_rows rows)); try discriminate. eapply G; eauto.
+  { intros al0 x l0 Hx. eapply mapM_Forall; [|exact Hr]. intros r0 y Hr0 Hy. eapply vec_ibin_wf; [exact Hr0|exact Hx|exact Hy]. }
+  destruct p.
+  - destruct (negb (is_float_rows rows)); try discriminate. eapply G; [exact Hp|exact H].
+  - eapply G; [exact Hp|exact H].
   - destruct (negb (is_float_rows rows)); try discriminate.
     destruct rows0 as [|x [|x2 rows0]].
-    + eapply map2M_Forall; [|exact Hr|apply (Forall_True [])|exact H]. intros; eapply vec_ibin_wf; eauto.
-    + inversion Hp; subst. eapply (G al (PV x)); eauto.
-    + eapply map2M_Forall; [|exact Hr|exact Hp|exact H]. intros x0 y z Hx Hy Hz. eapply vec_ibin_wf; eauto.
+    + eapply map2M_Forall; [|exact Hr|exact Hp|exact H].
+      intros x0 y z Hx Hy Hz. cbn in Hz. eapply vec_ibin_wf; [exact Hx| |exact Hz]. exact Hy.
+    + inversion Hp; subst. eapply (G al (PV x)); [assumption|exact H].
+    + eapply map2M_Forall; [|exact Hr|exact Hp|exact H].
+      intros x0 y z Hx Hy Hz. cbn in Hz. eapply vec_ibin_wf; [exact Hx| |exact Hz]. exact Hy.
   - destruct rows0 as [|x [|x2 rows0]].
-    + eapply map2M_Forall; [|exact Hr|apply (Forall_True [])|exact H]. intros; eapply vec_ibin_wf; eauto.
-    + eapply (G al (PL x)); eauto. exact I.
+    + eapply map2M_Forall; [|exact Hr|apply (Forall_True [])|exact H].
+      intros x0 y z Hx _ Hz. cbn in Hz. eapply vec_ibin_wf; [exact Hx| |exact Hz]. exact I.
+    + eapply (G al (PL x)); [exact I|exact H].
     + eapply map2M_Forall; [|exact Hr|apply (Forall_True (x :: x2 :: rows0))|exact H].
-      intros x0 y z Hx _ Hz. eapply vec_ibin_wf; eauto. exact I.
+      intros x0 y z Hx _ Hz. cbn in Hz. eapply vec_ibin_wf; [exact Hx| |exact Hz]. exact I.
+  - eapply G; [exact Hp|exact H].
+  - eapply G; [exact Hp|exact H].
   - eapply map2M_Forall; [|exact Hr|apply (Forall_True m)|exact H].
-    intros x0 y z Hx _ Hz. eapply vec_ibin_wf; eauto. exact I.
+    intros x0 y z Hx _ Hz. cbn in Hz. eapply vec_ibin_wf; [exact Hx| |exact Hz]. exact I.
+Qed.
+
+(* ------------------------------------------------------------------ indexing and reductions keep the invariant *)
+Lemma wf_upd a i c : wf a -> wfc c -> wf (upd a i c).
+Proof. intros. now apply Forall_upd. Qed.
+Lemma set1_wf a i v r : wf a -> set1 a i v = Ok r -> wf r.
+Proof.
+  unfold set1. intros Ha H. destruct (inb a i).
+  - okinv. apply wf_upd; auto. apply wfc_nz.
+  - destruct (qzerob v); inversion H; subst; auto.
+Qed.
+Lemma set_zip_wf idx : forall a vals r, wf a -> set_zip a idx vals = Ok r -> wf r.
+Proof.
+  induction idx as [|i idx IH]; intros a [|v vals] r Ha H; cbn in H; try (okinv; auto; fail).
+  destruct (set1 a i v) eqn:E; cbn in H; try discriminate. eapply IH; [|exact H]. eapply set1_wf; eauto.
+Qed.
+Lemma set_all_wf idx : forall a v r, wf a -> set_all a idx v = Ok r -> wf r.
+Proof.
+  induction idx as [|i idx IH]; intros a v r Ha H; cbn in H; try (okinv; auto; fail).
+  destruct (set1 a i v) eqn:E; cbn in H; try discriminate. eapply IH; [|exact H]. eapply set1_wf; eauto.
+Qed.
+Lemma set_zip_lazy_wf idx : forall a k r, wf a -> set_zip_lazy a idx k = Ok r -> wf r.
+Proof.
+  induction idx as [|i idx IH]; intros a k r Ha H; cbn [set_zip_lazy] in H; try (okinv; auto; fail).
+  destruct (Nat.ltb k (length a)); [|okinv; auto].
+  destruct (set1 a i (getc a k)) eqn:E; cbn in H; try discriminate. eapply IH; [|exact H]. eapply set1_wf; eauto.
+Qed.
+Lemma wf_app a b : wf a -> wf b -> wf (a ++ b).
+Proof. intros. now apply Forall_app. Qed.
+Lemma wf_firstn n a : wf a -> wf (firstn n a).
+Proof. intros H. revert n. unfold wf in *. induction H; intros [|n]; cbn; try constructor; auto. Qed.
+Definition svwf (v : sval) : Prop := match v with SVObj c => wf c | _ => True end.
+Lemma set_open_wf a v r : svwf v -> set_open a v = Ok r -> wf r.
+Proof.
+  intros Hv H. destruct v as [q|l|c]; cbn in H.
+  - okinv. destruct (qzerob q) eqn:E; [apply wf_empty|]. apply qzerob_false in E. apply wf_map_any. intros; exact E.
+  - eapply set_zip_wf; [|exact H]. apply wf_empty.
+  - destruct (Nat.leb (length c) (length a)).
+    + okinv. apply wf_app; auto. apply wf_empty.
+    + destruct (Nat.eqb (nkeys (skipn (length a) c)) 0); inversion H; subst. now apply wf_firstn.
+Qed.
+Lemma set_idx_wf a idx v r : wf a -> set_idx a idx v = Ok r -> wf r.
+Proof. intros Ha H. destruct v; cbn in H; eauto using set_zip_wf, set_all_wf. Qed.
+Lemma sval_of_wf p v : pwf p -> sval_of p = Ok v -> svwf v.
+Proof.
+  intros Hp H. destruct p; cbn in H; try discriminate; try (okinv; exact I).
+  - destruct c as [|x [|y c]]; okinv; cbn; auto.
+  - destruct b as [|x [|y b]]; okinv; cbn; auto.
+Qed.
+Lemma vecF_set_wf c ix p r : wf c -> pwf p -> vecF_set c ix p = Ok r -> wf r.
+Proof.
+  intros Hc Hp H. unfold vecF_set in H. destruct (sval_of p) as [v|] eqn:E; cbn in H; try discriminate.
+  pose proof (sval_of_wf _ _ Hp E) as Hv.
+  destruct ix; try (eapply set_idx_wf; eauto; fail).
+  - destruct v; try discriminate. eapply set1_wf; eauto.
+  - destruct v; try discriminate. eapply set1_wf; eauto.
+  - eapply set_open_wf; eauto.
+Qed.
+Lemma reduce_obj_pwf p : pwf p -> pwf (reduce_obj p).
+Proof.
+  intros Hp. unfold reduce_obj.
+  destruct p as [c|b|rows|rows|q isb|l isb|m isb]; cbn; auto.
+  - destruct c as [|x [|y c]]; cbn; auto.
+  - destruct b as [|x [|y b]]; cbn; auto.
+  - destruct rows as [|r [|r2 rows]]; cbn; auto. inversion Hp; subst. destruct r as [|x [|y r]]; cbn; auto.
+  - destruct rows as [|r [|r2 rows]]; cbn; auto. destruct r as [|x [|y r]]; cbn; auto.
+Qed.
+Lemma resolve_pwf s a p : store_wf s -> resolve s a = Ok p -> pwf p.
+Proof.
+  intros Hs H. destruct a; cbn in H; try (okinv; cbn; auto; fail).
+  - unfold getobj in H. destruct (nth_error s i) eqn:E; cbn in H; try discriminate. okinv.
+    pose proof (Forall_nth_error _ _ _ _ Hs E) as Ho. destruct o; cbn; auto.
+  - okinv. unfold reduce1. destruct l as [|x [|y l]]; cbn; auto.
+  - okinv. unfold reduce1. destruct (map b2q l) as [|x [|y l0]]; cbn; auto.
+  - okinv. unfold reduce2, reduce1. destruct m as [|r [|r2 m]]; cbn; auto. destruct r as [|x [|y r]]; cbn; auto.
+  - okinv. unfold reduce2, reduce1. destruct (map (map b2q) m) as [|r [|r2 m0]]; cbn; auto. destruct r as [|x [|y r]]; cbn; auto.
+Qed.
+Lemma getobj_wf s i o : store_wf s -> getobj s i = Ok o -> owf o.
+Proof.
+  intros Hs H. unfold getobj in H. destruct (nth_error s i) eqn:E; inversion H; subst.
+  eapply Forall_nth_error; eauto.
+Qed.
+
+Lemma red_vecF_new r c keep n : red_vecF r c keep = RNew n -> owf n.
+Proof.
+  unfold red_vecF. destruct r, keep; cbn; intros H; try discriminate; inversion H; subst; cbn; auto;
+    try (repeat constructor; apply wfc_nz).
+  all: match type of H with context [match ?x with _ => _ end] => destruct x; try discriminate end;
+    inversion H; subst; cbn; repeat constructor; apply wfc_nz.
+Qed.
+Lemma red_vecB_new r b keep n : red_vecB r b keep = RNew n -> owf n.
+Proof.
+  unfold red_vecB. destruct r, keep; cbn; intros H; try discriminate; inversion H; subst; cbn; auto;
+    try (repeat constructor; apply wfc_nz).
+  all: repeat match type of H with context [if ?x then _ else _] => destruct x; try discriminate end;
+    inversion H; subst; cbn; repeat constructor; apply wfc_nz.
+Qed.
+Lemma wf_map_nz {A} (f : A -> Q) l : wf (map (fun x => nz (f x)) l).
+Proof. apply wf_map_any. intros; apply wfc_nz. Qed.
+Lemma Forall_wf_single {A} (f : A -> Q) l : Forall wf (map (fun x => [nz (f x)]) l).
+Proof. induction l; cbn; constructor; auto. repeat constructor. apply wfc_nz. Qed.
+Lemma red_arrF_new r rows axis keep n : Forall wf rows -> red_arrF false r rows axis keep = RNew n -> owf n.
+Proof.
+  intros Hr. unfold red_arrF.
+  destruct axis as [[|[|k]]|]; destruct r, keep; cbn; intros H; try discriminate;
+    repeat match type of H with
+           | context [match ?x with _ => _ end] => destruct x eqn:?; try discriminate
+           end;
+    inversion H; subst; cbn; auto;
+    try (repeat constructor; try apply wfc_nz; try apply (wf_map_nz (fun c => c)); fail).
+  all: try (rewrite map_map; apply (Forall_wf_single (fun x => x))).
+  all: try (constructor; [|constructor]).
+  all: try (apply wf_map_any; intros; apply wfc_nz).
+  all: try (rewrite <- (map_map (fun x => x) (fun x => [nz x])); apply (Forall_wf_single (fun x => x))).
+  all: try (eapply truediv_scalar_wf; [|eassumption]; apply wf_map_any; intros; apply wfc_nz).
+Qed.
+
+(* ------------------------------------------------------------------ SparseArray.__setitem__ keeps the invariant *)
+Lemma upd_rows_Forall {A} (P : A -> Prop) (f : A -> A * option err) sel : forall rows,
+  (forall r, P r -> P (fst (f r))) -> Forall P rows -> Forall P (fst (upd_rows f rows sel)).
+Proof.
+  induction sel as [|i sel IH]; intros rows Hf Hr; cbn; auto.
+  destruct (nth_error rows i) eqn:E; cbn; auto.
+  pose proof (Hf a (Forall_nth_error _ _ _ _ Hr E)) as Ha.
+  destruct (f a) as [r' [e|]]; cbn in *.
+  - now apply Forall_upd.
+  - apply IH; auto. now apply Forall_upd.
+Qed.
+Lemma upd_rows2_Forall {A B} (P : A -> Prop) (f : A -> B -> A * option err) sel : forall rows vals,
+  (forall r v, P r -> P (fst (f r v))) -> Forall P rows -> Forall P (fst (upd_rows2 f rows sel vals)).
+Proof.
+  induction sel as [|i sel IH]; intros rows [|v vals] Hf Hr; cbn; auto.
+  destruct (nth_error rows i) eqn:E; cbn; auto.
+  pose proof (Hf a v (Forall_nth_error _ _ _ _ Hr E)) as Ha.
+  destruct (f a v) as [r' [e|]]; cbn in *.
+  - now apply Forall_upd.
+  - apply IH; auto. now apply Forall_upd.
+Qed.
+Lemma keep_on_err_wf c x : wf c -> (forall r, x = Ok r -> wf r) -> wf (fst (keep_on_err c x)).
+Proof. intros Hc Hx. destruct x; cbn; auto. Qed.
+Lemma dset_wf c j q : wf c -> wf (fst (dset c j q)).
+Proof. intros Hc. apply keep_on_err_wf; auto. intros r. now apply set1_wf. Qed.
+
+Lemma arrF_set_wf rows ro ax p : Forall wf rows -> pwf p -> Forall wf (fst (arrF_set false rows ro ax p)).
+Proof.
+  intros Hr Hp. unfold arrF_set.
+  set (rowset := fun (n : index) (c : cells) (v : operand) =>
+                   if ro then (c, Some EValue)
+                   else if is_open n && vd2 v then (c, Some EIndex)
+                   else keep_on_err c (vecF_set c n v)).
+  assert (RS : forall n c v, wf c -> pwf v -> wf (fst (rowset n c v))).
+  { intros n c v Hc Hv. unfold rowset. destruct ro; cbn; auto. destruct (is_open n && vd2 v); cbn; auto.
+    apply keep_on_err_wf; auto. intros r. now apply vecF_set_wf. }
+  assert (R1 : forall isb v, pwf (reduce1 v isb)).
+  { intros isb v. unfold reduce1. destruct v as [|x [|y v]]; exact I. }
+  assert (U1 : forall n v sel, pwf v -> Forall wf (fst (upd_rows (fun c => rowset n c v) rows sel))).
+  { intros n v sel Hv. apply upd_rows_Forall; auto. }
+  assert (U2 : forall n isb sel m, Forall wf (fst (upd_rows2 (fun c v => rowset n c (reduce1 v isb)) rows sel m))).
+  { intros. apply upd_rows2_Forall; auto. }
+  assert (U3 : forall n isb sel (l : list Q), Forall wf (fst (upd_rows2 (fun c v => rowset n c (PS v isb)) rows sel l))).
+  { intros. apply upd_rows2_Forall; auto. intros; apply RS; auto. exact I. }
+  assert (BC : forall sel n, Forall wf (fst (match p with
+      | PArr2 m isb => upd_rows2 (fun c v => rowset n c (reduce1 v isb)) rows sel m
+      | PA m => upd_rows2 (fun c v => rowset n c (PV v)) rows sel m
+      | PB _ => (rows, Some EOther)
+      | _ => upd_rows (fun c => rowset n c p) rows sel end))).
+  { intros sel n. destruct p; auto.
+    (* PA: every value row that is used is one of the rows of the operand *)
+    clear -Hr Hp RS. revert rows Hr rows0 Hp. induction sel as [|i sel IH]; intros rows Hr [|v m] Hp; cbn; auto.
+    destruct (nth_error rows i) eqn:E; cbn; auto. inversion Hp; subst.
+    pose proof (RS n c (PV v) (Forall_nth_error _ _ _ _ Hr E) H1) as Hc.
+    destruct (rowset n c (PV v)) as [r' [e|]]; cbn in *.
+    - now apply Forall_upd.
+    - apply IH; auto. now apply Forall_upd. }
+  destruct ax as [m|m n].
+  - destruct (is_int m); [apply U1; auto|].
+    destruct m; try apply BC.
+    destruct p; cbn; auto; try (apply U1; auto; fail); try apply U3; try apply U2.
+  - destruct (is_slice m).
+    + destruct (is_slice n).
+      * destruct (negb (is_open m) && is_open n); [apply U1; auto | apply BC].
+      * destruct p; cbn; auto. destruct (is_int n); auto.
+    + destruct (is_int m); [apply U1; auto|].
+      destruct (is_slice n).
+      * destruct p; cbn; auto.
+      * destruct (is_int n).
+        -- destruct p; cbn; auto.
+           ++ apply upd_rows_Forall; auto. intros; now apply dset_wf.
+           ++ apply upd_rows2_Forall; auto. intros; now apply dset_wf.
+        -- destruct p; cbn; auto.
+           ++ apply upd_rows2_Forall; auto. intros; now apply dset_wf.
+           ++ apply upd_rows2_Forall; auto. intros; now apply dset_wf.
 Qed.
